@@ -511,8 +511,7 @@ Proof. induction l as [|[a b] l IHl]; cbn; [reflexivity|]. destruct (decide (k' 
 Ltac fin :=
   repeat (case_decide; subst; try congruence);
   repeat match goal with
-         | H : context [alookup ?l ?k] |- _ => destruct (alookup l k) eqn:?
-         | |- context [alookup ?l ?k] => destruct (alookup l k) eqn:?
+         | |- context [alookup ?l ?k] => destruct (alookup l k)
          end; try reflexivity; try congruence.
 
 (* complete description of the unified map of a successful memory-qos CreateContainer *)
@@ -556,16 +555,7 @@ Proof.
       destruct (find_class (mq_classes cfg) v) as [[|h|]|]; try discriminate; injection Ea as <-.
       * rewrite IH. fin.
       * cbv beta. rewrite !lookup_assoc_keep.
-        destruct (decide (i = k_class)) as [->|Hic].
-        { rewrite !decide_False by congruence. rewrite IH. reflexivity. }
-        rewrite (decide_False (P := i = k_class)) in IH by assumption.
-        destruct (decide (i = k_swap)) as [->|His].
-        { rewrite decide_False by congruence. rewrite IHs.
-          rewrite (decide_False (P := k_swap = k_high)) by congruence.
-          now destruct (alookup done k_swap). }
-        destruct (decide (i = k_high)) as [->|Hih].
-        { rewrite IHh. now destruct (alookup done k_high). }
-        rewrite IH. now destruct (alookup done i).
+        repeat (case_decide; subst; try congruence); rewrite ?IHh, ?IHs, ?IH; cbn [default]; fin.
     + destruct (decide (k ∈ mq_unified cfg)); [|discriminate]. injection Ea as <-. cbv beta.
       rewrite lookup_insert_dec. specialize (IH i).
       rewrite (decide_False (P := k_class = k)) by congruence.
@@ -608,55 +598,14 @@ Proof.
     destruct (mt_action cfg (k, v)) as [f|] eqn:Ea; [|discriminate]. injection Hu as <-.
     specialize (IH Hnd u0 eq_refl).
     pose proof k_high_swap. pose proof k_class_high. pose proof k_class_swap.
-    unfold mt_action in Ea. cbn [fst snd] in Ea. unfold mt_spec in *. rewrite !alookup_snoc.
-    pose proof (IH k_swap) as IHs. rewrite (decide_True (P := k_swap = k_swap)) in IHs by reflexivity.
-    specialize (IH i).
-    destruct (decide (k = k_swap)) as [->|Hks].
-    { injection Ea as <-. cbv beta. rewrite lookup_insert_dec. rewrite Hk.
-      rewrite (decide_True (P := k_swap = k_swap)) by reflexivity.
-      rewrite (decide_False (P := k_high = k_swap)) by congruence.
-      destruct (decide (i = k_swap)); [reflexivity|]. rewrite IH.
-      destruct (decide (i = k_high)); [now destruct (alookup done k_high)|reflexivity]. }
-    destruct (decide (k = k_high)) as [->|Hkh].
-    { injection Ea as <-. cbv beta. rewrite lookup_insert_dec. rewrite Hk.
-      rewrite (decide_False (P := k_swap = k_high)) by congruence.
-      rewrite (decide_False (P := k_class = k_high)) by congruence.
-      rewrite (decide_True (P := k_high = k_high)) by reflexivity.
-      destruct (decide (i = k_high)) as [->|Hih].
-      - rewrite decide_False by congruence. reflexivity.
-      - rewrite IH. destruct (decide (i = k_swap)); [|reflexivity].
-        destruct (alookup done k_swap); [reflexivity|]. now destruct (alookup done k_class). }
-    rewrite (decide_False (P := k_swap = k)) by congruence.
-    rewrite (decide_False (P := k_high = k)) by congruence.
-    destruct (decide (k = k_class)) as [->|Hkc].
-    + rewrite Hk. rewrite (decide_True (P := k_class = k_class)) by reflexivity.
-      rewrite Hk in IH, IHs. unfold mt_derived in *.
-      assert (forall g : amap -> amap, (forall m j, j <> k_swap -> g m !! j = m !! j) ->
-                (g u0 !! k_swap = match alookup done k_swap with Some x => Some x | None =>
-                    match cfg with Some classes => if decide (v = []) then None else
-                      match find_class classes v with Some (Some true) => Some v_max | Some (Some false) => Some v_zero | _ => None end
-                    | None => None end end) ->
-                g u0 !! i = if decide (i = k_swap) then
-                    match alookup done k_swap with Some x => Some x | None =>
-                    match cfg with Some classes => if decide (v = []) then None else
-                      match find_class classes v with Some (Some true) => Some v_max | Some (Some false) => Some v_zero | _ => None end
-                    | None => None end end
-                  else if decide (i = k_high) then match alookup done k_high with Some x => Some x | None => None end else None) as Hgen.
-      { intros g Hg1 Hg2. destruct (decide (i = k_swap)) as [->|Hne]; [exact Hg2|].
-        rewrite Hg1 by assumption. rewrite IH. destruct (decide (i = k_high)); [now destruct (alookup done k_high)|reflexivity]. }
-      destruct (decide (v = [])) as [->|Hv].
-      * injection Ea as <-. apply Hgen; [reflexivity|]. cbv beta. rewrite IHs.
-        destruct (alookup done k_swap); [reflexivity|]. now destruct cfg.
-      * destruct cfg as [classes|]; [|discriminate].
-        destruct (find_class classes v) as [[[]|]|]; try discriminate; injection Ea as <-; apply Hgen; cbv beta.
-        -- intros m j Hj. rewrite lookup_assoc_keep. now rewrite decide_False.
-        -- rewrite lookup_assoc_keep, decide_True by reflexivity. rewrite IHs. now destruct (alookup done k_swap).
-        -- intros m j Hj. rewrite lookup_assoc_keep. now rewrite decide_False.
-        -- rewrite lookup_assoc_keep, decide_True by reflexivity. rewrite IHs. now destruct (alookup done k_swap).
-        -- reflexivity.
-        -- rewrite IHs. now destruct (alookup done k_swap).
-    + injection Ea as <-. cbv beta. rewrite (decide_False (P := k_class = k)) by congruence. rewrite IH.
-      destruct (decide (i = k_swap)).
-      * destruct (alookup done k_swap); [reflexivity|]. now destruct (alookup done k_class).
-      * destruct (decide (i = k_high)); [now destruct (alookup done k_high)|reflexivity].
+    unfold mt_action in Ea. cbn [fst snd] in Ea. unfold mt_spec, mt_derived in *. rewrite !alookup_snoc.
+    pose proof (IH k_swap) as IHs. pose proof (IH k_high) as IHh. specialize (IH i).
+    repeat (case_decide; subst; try congruence);
+      repeat match goal with
+             | c : mt_config |- _ => destruct c
+             | H : context [find_class ?c ?n] |- _ => destruct (find_class c n) as [[[]|]|] eqn:?
+             end; try discriminate; injection Ea as <-; cbv beta;
+      rewrite ?lookup_insert_dec, ?lookup_assoc_keep; repeat (case_decide; subst; try congruence);
+      rewrite ?Hk in *; rewrite ?IHs, ?IHh, ?IH; cbn [default];
+      repeat match goal with H : find_class _ _ = _ |- _ => rewrite H; clear H end; fin.
 Qed.
